@@ -47,6 +47,8 @@ type Event struct {
 	Kind string `json:"kind"` // add | add-fail | get-call | get-ret | pin | remove
 	Cid  string `json:"cid"`
 	Res  string `json:"res,omitempty"` // get-call: "ctx-done" when the request's context had already ended
+	// get-call: milliseconds left until the deadline of the request's context (0 = the context has no deadline)
+	DlMs int64 `json:"dl_ms,omitempty"`
 }
 
 // Policy for releasing gated Gets.
@@ -375,6 +377,13 @@ func (d *dagSvc) Get(ctx context.Context, c cid.Cid) (format.Node, error) {
 		s.ev("get-call", c, "ctx-done")
 	} else {
 		s.ev("get-call", c, "")
+	}
+	if dl, ok := ctx.Deadline(); ok && s.record && len(s.events) > 0 {
+		ms := int64(time.Until(dl) / time.Millisecond)
+		if ms < 1 {
+			ms = 1
+		}
+		s.events[len(s.events)-1].DlMs = ms
 	}
 	f := s.faults[c.KeyString()]
 	var pk *parked
